@@ -46,6 +46,7 @@ type c01Event struct {
 	Children []c01Event        `json:"children,omitempty"`
 	eff      map[string]bool   // reuse mode: the definitions of the shared scope object at the time the event was added
 	PauseNs  int               `json:"pause,omitempty"`
+	NoState  bool              `json:"no_state,omitempty"` // the event carries no state at all (Go API only; identified by its object)
 }
 
 type c01Reload struct {
@@ -55,6 +56,7 @@ type c01Reload struct {
 
 type c01Plan struct {
 	ReuseScopes bool              `json:"reuse_scope_objects,omitempty"` // every client keeps one RuleScope object per scope and uses it for all its cascades, editing it in between (all its events wait)
+	RaceReset   bool              `json:"race_reset,omitempty"`          // reload: another goroutine keeps calling Reset() while Finish() is still working through queued events
 	Flood       int               `json:"kind_flood,omitempty"`          // that many events of pairwise distinct, non-matching kinds are added before the clients start
 	Reload      *c01Reload        `json:"reload,omitempty"`              // Finish(), Reset(), load this rule set, Start(), second batch of events
 	ViaECAL     bool              `json:"via_ecal,omitempty"`            // rules are declared as ECAL sinks (attribute -> rule conversion in the interpreter)
@@ -135,7 +137,9 @@ func c01GenVal(r *simrt.RNG, forRule bool, containers bool) c01Val {
 
 func c01GenEvent(r *simrt.RNG, p *c01Plan, depth int, containers bool) c01Event {
 	e := c01Event{Name: c01Names[r.Intn(len(c01Names))], Kind: c01GenKind(r, false), Wait: r.Bool(0.5), Scope: r.Intn(len(p.Scopes)), PauseNs: r.Intn(10)}
-	if r.Bool(0.7) {
+	if r.Bool(0.08) {
+		e.NoState = true
+	} else if r.Bool(0.7) {
 		e.State = map[string]c01Val{}
 		n := 1 + r.Intn(3)
 		for i := 0; i < n; i++ {
@@ -264,6 +268,7 @@ func c01Gen(r *simrt.RNG, tier string) interface{} {
 		}
 		rl.Clients = [][]c01Event{evs}
 		p.Reload = rl
+		p.RaceReset = r.Bool(0.4)
 	}
 	nc := 1 + r.Intn(3)
 	for c := 0; c < nc; c++ {
@@ -327,6 +332,15 @@ func c01Gen(r *simrt.RNG, tier string) interface{} {
 	}
 	if r.Bool(0.004) {
 		p.Flood = 4000 + r.Intn(400)
+	}
+	if p.RaceReset {
+		// (no child events: an action that adds one while the processor is stopping is
+		// refused - DESIGN.md 9, observations)
+		for c := range p.Clients {
+			for i := range p.Clients[c] {
+				p.Clients[c][i].Children = nil
+			}
+		}
 	}
 	if p.Reload != nil {
 		// events of kinds already seen before the reload (the pre-check cache must not survive it)
@@ -726,7 +740,17 @@ func c01Run(p *c01Plan) {
 		insts = append(insts, in)
 		return in
 	}
+	byObject := map[*engine.Event]int{}
 	mkEvent := func(in *c01Inst) *engine.Event {
+		if in.ev.NoState && !p.ViaECAL {
+			var st map[interface{}]interface{}
+			if in.id%2 == 1 {
+				st = map[interface{}]interface{}{}
+			}
+			e := engine.NewEvent(in.ev.Name, in.ev.segs(), st)
+			byObject[e] = in.id
+			return e
+		}
 		st := map[interface{}]interface{}{"__id": in.id, "evid": float64(in.id)}
 		for k, v := range in.ev.State {
 			st[k] = v.goValue()
@@ -737,6 +761,9 @@ func c01Run(p *c01Plan) {
 	action := func(name string) engine.RuleAction {
 		return func(pr engine.Processor, m engine.Monitor, e *engine.Event, tid uint64) error {
 			id, ok := e.State()["__id"].(int)
+			if !ok {
+				id, ok = byObject[e]
+			}
 			if !ok || id < 0 || id >= len(insts) {
 				simrt.Fail("oracle:foreign-event", "foreign-event", "rule %s fired for an unknown event %v", name, e)
 			}
@@ -816,6 +843,7 @@ func c01Run(p *c01Plan) {
 			c01CheckInst(in.view, in, "AddEventAndWait returned")
 		}
 	}
+	settle := true
 	runClients := func(clients [][]c01Event, tag string) {
 		var wg simsync.WaitGroup
 		for ci, evs := range clients {
@@ -865,6 +893,9 @@ func c01Run(p *c01Plan) {
 			})
 		}
 		wg.Wait()
+		if !settle {
+			return
+		}
 		simrt.WaitQuiescent()
 		for _, in := range insts {
 			if in.added {
@@ -883,8 +914,34 @@ func c01Run(p *c01Plan) {
 			}
 		}
 	}
-	runClients(p.Clients, "")
-	proc.Finish()
+	if p.Reload != nil && p.RaceReset {
+		// events may still be queued when Finish() is called; meanwhile another goroutine
+		// tries to reset the processor until it is allowed to. Every event that was accepted
+		// is still processed with the rules that were loaded when it was added
+		settle = false
+		runClients(p.Clients, "")
+		settle = true
+		simrt.Count("fault_reset_racing_finish")
+		resetDone := &hbFlag{}
+		simrt.Go("resetter", func() {
+			for proc.Reset() != nil {
+				simrt.Yield()
+			}
+			resetDone.set()
+		})
+		proc.Finish()
+		for !resetDone.get() {
+			simrt.Yield()
+		}
+		for _, in := range insts {
+			if in.added {
+				c01CheckInst(in.view, in, "after Finish() (a concurrent Reset() had to wait for it)")
+			}
+		}
+	} else {
+		runClients(p.Clients, "")
+		proc.Finish()
+	}
 	if p.Reload != nil {
 		simrt.Count("fault_reload_rules")
 		if err := proc.Reset(); err != nil {
